@@ -244,14 +244,16 @@ theorem puncture_goes_to_wan_walker (s : SelfView) (p : PunctReqView) :
 theorem requester_walks_wan (s : SelfView) (p : IntroRespView) (h0 : p.wan_introduction_address ≠ Addr.zero)
     (h : p.wan_introduction_address.ip ≠ s.my_estimated_wan.ip) :
     p.wan_introduction_address ∈ Gen.introductionsOf s p := by
-  simp [Gen.introductionsOf, Id.run, pure, h, h0]
-  split <;> simp
+  by_cases hl : p.lan_introduction_address = Addr.zero <;> simp [Gen.introductionsOf, Id.run, pure, h, h0, hl]
 
 /-- on_introduction_response, same WAN ip (same NAT) and a LAN address was handed out: only the LAN address is walked to -/
 theorem requester_walks_lan_only (s : SelfView) (p : IntroRespView) (h0 : p.lan_introduction_address ≠ Addr.zero)
     (h : p.wan_introduction_address.ip = s.my_estimated_wan.ip) :
     Gen.introductionsOf s p = [p.lan_introduction_address] := by
-  simp [Gen.introductionsOf, Id.run, pure, h, h0]
+  by_cases hw : p.wan_introduction_address = Addr.zero
+  · have h' : Addr.zero.ip = s.my_estimated_wan.ip := hw ▸ h
+    simp [Gen.introductionsOf, Id.run, pure, h0, hw, h']
+  · simp [Gen.introductionsOf, Id.run, pure, h, h0]
 
 /-- on_introduction_response never records the null address or anything it was not handed, except the documented guess
     (own LAN ip, handed-out WAN port) when a same-ip introduction comes without LAN address -/
